@@ -11,7 +11,18 @@ ANN = {"int": "int", "str": "str", "any": "Any"}
 _counter = itertools.count()
 
 
+class Fac:
+    """a default written as a factory expression"""
+
+    def __init__(self, text: str):
+        self.text = text
+
+    def __repr__(self):
+        return self.text
+
+
 class Kind:
+    factory_fmt = "{}"
     name = "?"
     tla = "total"            # which Kinds.tla variant describes it
     post_init: Optional[str] = None
@@ -47,8 +58,9 @@ class Kind:
 
     def _fields(self, shape, names):
         for f in shape:
-            ann = "typing.Optional[int]" if names.pytype(f["ty"], f["req"]) is not PYTYPES[f["ty"]] else ANN[f["ty"]]
-            yield names.field(f["id"]), ann, f["req"], names.default(f["ty"])
+            ann = f"typing.Optional[{ANN[f['ty']]}]" if names.pytype(f["ty"], f["req"]) is not PYTYPES[f["ty"]] else ANN[f["ty"]]
+            fac = names.factory(f["ty"])
+            yield names.field(f["id"]), ann, f["req"], (Fac(self.factory_fmt.format(fac.__name__)) if fac and not f["req"] else names.default(f["ty"]))
 
     def _hook(self, with_log: bool) -> str:
         if not with_log or self.post_init is None:
@@ -58,6 +70,7 @@ class Kind:
 
 class DataclassKind(Kind):
     name = "dataclass"
+    factory_fmt = "dataclasses.field(default_factory={})"
     post_init = "__post_init__(self)"
 
     def source(self, shape, names, with_log=False):
@@ -112,6 +125,7 @@ class TypedDictTotalFalseKind(TypedDictKind):
 
 class AttrsKind(Kind):
     name = "attrs"
+    factory_fmt = "attrs.Factory({})"
     post_init = "__attrs_post_init__(self)"
 
     def source(self, shape, names, with_log=False):
@@ -125,6 +139,7 @@ class AttrsKind(Kind):
 
 class PydanticKind(Kind):
     name = "pydantic"
+    factory_fmt = "pydantic.Field(default_factory={})"
     post_init = "model_post_init(self, context)"
 
     def supports(self, shape, sch):
